@@ -78,7 +78,13 @@ def _no_store_condition_ok(ctx, fi, field, new_param, old_attr):
                      tm.compare("==", tm.length(new), 0).key, tm.compare("!=", tm.length(new), 0).key}
     for s in stores:
         parts = s.guards.parts if isinstance(s.guards, And) else ([] if s.guards == tm.TRUE else [s.guards])
-        bad = [p for p in parts if p.key not in allowed_other and p.key != tm.negate(eq).key]
+        def _fine(p_):
+            if p_.key in allowed_other or p_.key == tm.negate(eq).key:
+                return True
+            if isinstance(p_, tm.Or):
+                return all(_fine(x) for x in p_.parts)
+            return False
+        bad = [p for p in parts if not _fine(p)]
         ctx.check(not bad, fi, f"the store of `{field}` is skipped only when the new value equals the stored one "
                                "(a cheaper test such as equal length keeps stale data)", line=s.stmt.lineno,
                   role=f"setter:{field}:skip-condition@{stores.index(s)}", expected=f"guard within {{new is None, len(new) == 0, new != current}}",
